@@ -25,10 +25,10 @@ STUB = ["sockets/poll/time/locks (simulator)"]
 ASSUMPTIONS = ["in-memory kernel fidelity (EOF/reset/EPIPE semantics)", "a requester-side write failure outside serve_all need not mark the "
                "connection closed (the statement promises that only for sides that close, are told to close, or fail while serving); the "
                "stream must be closed and a later close() must run the hook once"]
-PROBES = ["fault:recv-eof", "fault:recv-rst", "fault:send-epipe", "fault:send-rst", "fault:poll-eof", "c11:close-in-handler",
+PROBES = ["c11:pipe-peer-vanished", "fault:recv-eof", "fault:recv-rst", "fault:send-epipe", "fault:send-rst", "fault:poll-eof", "c11:close-in-handler",
           "c11:both-close"]
 
-WORKLOADS = ("sync", "async", "nested", "refs", "big", "twothreads")
+WORKLOADS = ("sync", "async", "nested", "refs", "big", "twothreads", "pipes")
 _CASES = None
 KINDS = {"recv": ("eof", "rst"), "send": ("epipe", "rst"), "poll": ("eof", "rst")}
 
@@ -441,8 +441,130 @@ def run_one(choices, params):
         del root, hang
         return True
 
+    def main_pipes(sim, k):
+        """the same over PipeStreams (connect_pipes / connect_subproc / connect_stdpipes): the peer vanishes without a close
+        request at a packet boundary with the pipes drained - the kernel then reports hang-up only, not 'readable'"""
+        from sim import patch
+        from rpyc.core.channel import Channel
+        from rpyc.core.stream import PipeStream
+        fos = patch.MODS["os"]
+        r1, w1 = fos.pipe()
+        r2, w2 = fos.pipe()
+        fr1, fw1, fr2, fw2 = fos.fdopen(r1, "rb"), fos.fdopen(w1, "wb"), fos.fdopen(r2, "rb"), fos.fdopen(w2, "wb")
+        sa, sb = PipeStream(fr1, fw2), PipeStream(fr2, fw1)
+        fr1._so._d.tag = fw2._so._d.tag = "A"
+        fr2._so._d.tag = fw1._so._d.tag = "B"
+
+        class SvcA(rpyc.Service):
+            def on_disconnect(self, conn):
+                hooks["A_d"] += 1
+
+        class SvcB(rpyc.Service):
+            def on_connect(self, conn):
+                self.kept = []
+
+            def on_disconnect(self, conn):
+                hooks["B_d"] += 1
+
+            def exposed_echo(self, tok):
+                return ("echo", tok)
+
+            def exposed_mk(self, tok):
+                return Obj(tok)
+
+            def exposed_keep(self, o):
+                self.kept.append(o)
+                return len(self.kept)
+
+            def exposed_hang(self, tok):
+                sim.sleep(100000)
+                return tok
+        comp = (bool(c.draw(2)), bool(c.draw(2)))
+        ca = SvcA()._connect(Channel(sa, comp[0]), {"connid": "A", "sync_request_timeout": None})
+        cb = SvcB()._connect(Channel(sb, comp[1]), {"connid": "B"})
+        srv_exc = []
+
+        def serve_b():
+            try:
+                cb.serve_all()
+            except core.SimKilled:
+                raise
+            except BaseException as e:
+                srv_exc.append(e)
+        srv = sim.spawn(serve_b, _name="B.serve_all")
+        root = ca.root
+        held = []
+        for j in range(1 + w.draw(3)):
+            what = w.pick(("echo", "mk", "keep"))
+            if what == "echo":
+                if root.echo(j) != ("echo", j):
+                    raise core.Violation("outcome/wrong-value", "echo over pipes")
+            elif what == "mk":
+                held.append(root.mk(j))
+            else:
+                root.keep(Obj(j))
+        who = w.pick(("A", "B"))
+        info["closefired"] = True
+        info["ops"].append(("vanish", who))
+        sim.count("c11:pipe-peer-vanished")
+        if who == "A":
+            # A's process is gone: its ends of both pipes close, nothing is said; B is idle in serve_all
+            del held[:]
+            root = None
+            ca.poll_all(0)
+            sim.sleep(0.5)                  # release notices drained by B: EOF lands on a packet boundary
+            t_end = sim.now
+            sa.close()
+            if not sim.block(lambda: srv.state == core.DONE, 60, "wait-B"):
+                raise core.Violation("hang", "B's serve_all still running 60 virtual s after the peer's ends of the pipes were closed; "
+                                     "blocked in %r, B.closed=%s" % (srv.what, cb.closed))
+            for e in srv_exc:
+                if not isinstance(e, EOFError):
+                    raise core.Violation("outcome/" + type(e).__name__, "B's serve_all raised %s: %s" % (type(e).__name__, e))
+            if not cb.closed:
+                raise core.Violation("not-closed", "B met end-of-stream on its pipe and is not closed")
+            if hooks["B_d"] != 1:
+                raise core.Violation("hook-count/%d" % hooks["B_d"], "B's disconnect hook ran %d times" % hooks["B_d"])
+            if cb._local_objects._dict:
+                raise core.Violation("table-not-released", "B still exports %r after the end" % (list(cb._local_objects._dict)[:3],))
+            ca._closed = True
+        else:
+            # B's process is gone while A waits (no expiry, or a long one) for a reply
+            expiry = w.pick((None, None, 500))
+            res = rpyc.async_(root.hang)(1)
+            if expiry is not None:
+                res.set_expiry(expiry)
+            ca.poll_all(0)
+            sim.sleep(0.5)
+            t_end = sim.now
+            sim.spawn(lambda: sb.close(), _name="B.dies")
+            out = None
+            try:
+                res.wait()
+                out = "returned"
+            except EOFError:
+                out = "EOFError"
+            except TimeoutError:
+                out = "timeout"
+            if out != "EOFError":
+                raise core.Violation("late-eof" if out == "timeout" else "outcome/" + out, "request pending when the peer's ends of the "
+                                     "pipes closed ended with %r after %.1f virtual s" % (out, sim.now - t_end))
+            if sim.now - t_end > 5.0:
+                raise core.Violation("late-eof", "pending request failed %.1f virtual s after the peer vanished" % (sim.now - t_end))
+            if not ca.closed:
+                raise core.Violation("not-closed", "A met end-of-stream on its pipe while serving and is not closed")
+            if hooks["A_d"] != 1:
+                raise core.Violation("hook-count/%d" % hooks["A_d"], "A's disconnect hook ran %d times" % hooks["A_d"])
+            del held[:]
+            root = res = None
+            cb._closed = True
+        return True
+
     if wl == "twothreads":
         main = main_two
+        plan = None
+    elif wl == "pipes":
+        main = main_pipes
         plan = None
     out, sim = H.simulate(choices, main, strategy=strat, netcfg=cfg, step_cap=400000)
     if out["kind"] == "deadlock":
@@ -453,7 +575,8 @@ def run_one(choices, params):
                "report": out["report"]}
     # a serving thread whose stream is closed under it by the requesting thread's failed write ends with select.error
     # (poll on a closed descriptor): the connection is closed and the hook has run, which is what is judged
-    terrs = [e for e in sim.task_errors if not (wl == "twothreads" and e[0] == "A.serve_all" and e[1] in ("OSError", "error"))]
+    terrs = [e for e in sim.task_errors if not (wl == "twothreads" and e[0] == "A.serve_all" and e[1] in ("OSError", "error"))
+             and not (wl == "pipes" and e[0] in ("B.serve_all", "B.dies"))]
     if out["kind"] == "ok" and terrs:
         out = {"kind": "violation", "cls": "outcome/" + terrs[0][1], "detail": "a task died: %r" % (sim.task_errors,), "sig": None}
     st = sim.stats
